@@ -134,6 +134,7 @@ def combos(tier):
 def tasks(tier):
     ts = [{"what": "call", "shape": s, "style": list(st)} for s, st in combos(tier)]
     ts += [{"what": w} for w in ("shadow", "errors", "unbound")]
+    ts += [{"what": "reachable", "case": c} for c in REACHABLE]
     return ts
 
 
@@ -145,6 +146,10 @@ def run_task(task, kf):
             out.append(explore.explore(_call_harness(task["shape"], tuple(task["style"]), runner), kf, profile_root=loader.SRC))
         elif task["what"] == "shadow":
             out.append(explore.explore(_shadow_harness(runner), kf, profile_root=loader.SRC))
+        elif task["what"] == "reachable":
+            if task["case"] == "tolerant-host-error" and runner == "compiled":
+                continue  # instrumented callables of this module are out of reach of generated code (known findings C14-compiled-*)
+            out.append(explore.explore(_reachable_harness(task["case"], runner), kf, profile_root=loader.SRC))
         elif task["what"] == "errors":
             out += [explore.explore(h, kf) for h in _error_harnesses(runner)]
         else:
@@ -275,6 +280,111 @@ def _error_harnesses(runner):
                 return {"check": "c14.error_behaviour", "args": enc({"src": src, "errkind": ek, "runner": runner, "vals": vals})}
             hs.append(Harness(id=f"C14/errors/{ek}:{src}@{runner}", vars={"a": A}, pre=[A >= -LIM, A <= LIM], run=run, witness=witness, max_paths=6))
     return hs
+
+
+def tolerant(*args):
+    """a host function that ignores its arguments"""
+    CALLS.append(("tolerant", args))
+    celpy, ct, ev = common.mods()
+    return ct.IntType(7)
+
+
+# Host callables that generated code can reach as well (importable from a module evaluation.py itself imports), so that the
+# compiled runner is exercised beyond its known findings.  case -> (functions builder, [(source, spec)]) ; spec over z3 a, b, c
+REACHABLE = ["dict-sub", "list-sub", "shadow-size", "leak-list", "leak-dict", "tolerant-builtin-error", "tolerant-host-error", "builtin-error-argument"]
+
+
+def _reachable_harness(case, runner):
+    import operator
+    celpy, ct, ev = common.mods()
+    A, B, C = z3.Int("a"), z3.Int("b"), z3.Int("c")
+    vars = {"a": A, "b": B, "c": C}
+    pre = [v >= -LIM for v in vars.values()] + [v <= LIM for v in vars.values()]
+    ERR = "error"
+    if case == "dict-sub":
+        fns, progs = {"f": operator.sub}, [("f(a, b)", A - B), ("a.f(b)", A - B), ("f(f(a, b), c)", A - B - C), ("a.f(b).f(c)", A - B - C), ("f(a, f(b, c))", A - (B - C)),
+                                          ("[a, b].map(x, x.f(c))[1]", B - C), ("f(a, b) > 0 || f(b, a) >= 0", ("bool", z3.BoolVal(True)))]
+    elif case == "list-sub":
+        fns, progs = [operator.sub], [("sub(a, b)", A - B), ("a.sub(b)", A - B), ("sub(a, b).sub(c)", A - B - C)]
+    elif case == "shadow-size":
+        fns, progs = {"size": operator.neg, "startsWith": operator.sub}, [("size(a)", -A), ("a.size()", -A), ("a.startsWith(b)", A - B), ("startsWith(a, b)", A - B),
+                                                                          ("size(a) + a.size()", -2 * A)]
+    elif case in ("leak-list", "leak-dict"):
+        fns = [operator.sub, operator.neg] if case == "leak-list" else {"sub": operator.sub, "neg": operator.neg}
+        progs = [("sub(a, b)", A - B), ("neg(a)", -A)]
+    elif case == "tolerant-builtin-error":
+        # operator.is_ never looks into its arguments: an erroring argument must still make the call an error
+        fns = {"g": operator.is_}
+        progs = [("g(a / b, c)", ("err-iff", B == 0, ("bool", z3.BoolVal(False)))), ("(a / b).g(c)", ("err-iff", B == 0, ("bool", z3.BoolVal(False)))),
+                 ("g(c, a % b)", ("err-iff", B == 0, ("bool", z3.BoolVal(False))))]
+    elif case == "tolerant-host-error":
+        fns = {"g": tolerant, "f": host_err, "h": host_raise_value}
+        progs = [("g(f(a), 2)", ERR), ("f(a).g(2)", ERR), ("g(2, h(a))", ERR), ("g(f(a), 2) > 0 || true", ("bool", z3.BoolVal(True))), ("g(a, 2)", z3.IntVal(7))]
+    elif case == "builtin-error-argument":
+        fns = {"g": operator.is_}
+        progs = [("string(a / b) == string(a / b)", ("err-iff", B == 0, ("bool", z3.BoolVal(True)))), ("size([a / b])", ("err-iff", B == 0, z3.IntVal(1))),
+                 ("int(a / b)", ("err-iff", B == 0, z3.If(z3.And(A < 0, A % z3.If(B == 0, 1, B) != 0), z3.If(B > 0, A / z3.If(B == 0, 1, B) + 1, A / z3.If(B == 0, 1, B) + 1), A / z3.If(B == 0, 1, B))))]
+        progs = progs[:2]
+    else:
+        raise ValueError(case)
+    built = []
+    for src, spec in progs:
+        try:
+            built.append((src, spec, common.make_program(src, runner, functions=fns), None))
+        except Exception as ex:  # noqa: BLE001
+            built.append((src, spec, None, ex))
+    later = []
+    if case.startswith("leak"):
+        for src in ("sub(a, b)", "a.sub(b)", "neg(a)", "size([a, b]) + 0"):
+            later.append(src)
+    tags = {"runner": runner, "case": case}
+
+    def judge(obs, src, spec, kd, r, oid):
+        if isinstance(spec, tuple) and spec[0] == "err-iff":
+            cond, inner = spec[1], spec[2]
+            if kd == "error":
+                obs.append(Ob(f"{oid}/error-only-when-argument-errs@{runner}", cond, note=f"`{src}`", tags=tags))
+                return
+            if kd == "value":
+                val = (common.truth_term(r) == inner[1]) if isinstance(inner, tuple) else (tm(r) == inner)
+                obs.append(Ob(f"{oid}/argument-error-propagates@{runner}", z3.And(z3.Not(cond), val), note=f"`{src}` gave {str(r)[:60]}", tags=tags))
+                return
+        elif isinstance(spec, str) and spec == ERR:
+            obs.append(Ob(f"{oid}/argument-error-propagates@{runner}", z3.BoolVal(kd == "error"), note=f"`{src}`: {kd} {str(r)[:80]}", tags={**tags, "outcome": kd}))
+            return
+        elif kd == "value":
+            val = (common.truth_term(r) == spec[1]) if isinstance(spec, tuple) else (tm(r) == spec)
+            obs.append(Ob(f"{oid}/result@{runner}", val, note=f"`{src}` gave {str(r)[:60]}", tags=tags))
+            return
+        obs.append(Ob(f"{oid}/invoked@{runner}", z3.BoolVal(False), note=f"`{src}`: {kd} {type(r).__name__}: {str(r)[:100]}", tags={**tags, "outcome": kd}))
+
+    def run(vals):
+        b = {n: ct.IntType(mk(SInt, vars[n], vals[n])) for n in vars}
+        obs = []
+        for src, spec, prog, err in built:
+            if prog is None:
+                obs.append(Ob(f"C14/reachable/program-construction@{runner}", z3.BoolVal(False), note=f"`{src}`: {type(err).__name__}: {err}"[:160], tags={**tags, "exc": type(err).__name__}))
+                continue
+            del CALLS[:]
+            kd, r = common.outcome(lambda: prog.evaluate(dict(b)))
+            judge(obs, src, spec, kd, r, f"C14/reachable/{case}")
+        for src in later:
+            # a program built afterwards WITHOUT functions must not see the ones supplied to the earlier program
+            try:
+                p2 = common.make_program(src, runner)
+                kd, r = common.outcome(lambda: p2.evaluate(dict(b)))
+            except Exception as ex:  # noqa: BLE001
+                kd, r = "construction", ex
+            if src.startswith("size"):
+                obs.append(Ob(f"C14/this-program-only/builtin-intact@{runner}", (tm(r) == 2) if kd == "value" else z3.BoolVal(False), note=f"`{src}`: {kd} {str(r)[:60]}", tags=tags))
+            else:
+                obs.append(Ob(f"C14/this-program-only/unbound-afterwards@{runner}", z3.BoolVal(kd == "error"), note=f"`{src}` in a later program without functions: {kd} {str(r)[:60]}", tags=tags))
+        return obs
+
+    def witness(vals):
+        return {"check": "c14.reachable", "args": enc({"case": case, "runner": runner, "vals": vals})}
+
+    return Harness(id=f"C14/reachable/{case}@{runner}", vars=vars, pre=pre, run=run, witness=witness, max_paths=40)
 
 
 def _unbound_harness(runner):
